@@ -59,6 +59,11 @@ public:
     void score_dense(const tensor_size_t feature, const hashes_t& hashes, const wlearner_criterion criterion)
     {
         const auto bins = this->bins();
+        if (bins == 0)
+        {
+            // NB: no feature value is available for the given samples, so there is nothing to fit!
+            return;
+        }
 
         auto rss = m_missing_rss;
         for (tensor_size_t bin = 0; bin < bins; ++bin)
